@@ -62,6 +62,39 @@ def serverOffers (preset clientOffers : List Bytes) (h2on : Bool) : List Bytes :
 def negotiate (swp : Bool) (clientAlpn s : Option Bytes) (h2on : Bool) (offers : List Bytes) : Option Bytes :=
   alpnSelect (clientOverride swp clientAlpn) s h2on offers
 
+/-! ### the whole chain: upstream handshake first, nested client TLS -/
+
+/-- what a TLS server with ALPN preference list `prefs` (`none`: no ALPN configured) puts into its ServerHello for
+    the offered list: the first of ITS protocols that was offered (OpenSSL `SSL_select_next_proto` as used by
+    CPython's ssl and most servers), nothing if there is no overlap -/
+def peerSelect (prefs : Option (List Bytes)) (offered : List Bytes) : Option Bytes :=
+  match prefs with
+  | none => none
+  | some ps => ps.find? fun p => decide (p ∈ offered)
+
+/-- `TLSLayer.receive_handshake_data`: `conn.alpn = get_alpn_proto_negotiated()` — `b""` when nothing was negotiated -/
+def recordedAlpn (negotiated : Option Bytes) : Option Bytes := some (negotiated.getD [])
+
+/-- server-first (`connection_strategy=eager`): mitmproxy offers `serverOffers [] offers` upstream, records what the
+    upstream selected, then answers the client.  Result: (upstream's protocol, client's protocol). -/
+def eagerChain (prefs : Option (List Bytes)) (h2on : Bool) (offers : List Bytes) : Option Bytes × Option Bytes :=
+  let up := peerSelect prefs (serverOffers [] offers h2on)
+  (up, negotiate false none (recordedAlpn up) h2on offers)
+
+/-- `ClientTLSLayer.__init__`: a client that already has a TLS session (nested TLS) gets its recorded ALPN unset -/
+def resetOnNested (clientHasTls : Bool) (alpn : Option Bytes) : Option Bytes := if clientHasTls then none else alpn
+
+/-- secure web proxy session: outer handshake (override http/1.1), its result recorded on the client object, CONNECT,
+    then the inner handshake on the SAME client object.  Result: (outer, upstream, inner). -/
+def nestedSession (h2on : Bool) (outerOffers innerOffers : List Bytes) (prefs : Option (List Bytes)) (eager : Bool) :
+    Option Bytes × Option Bytes × Option Bytes :=
+  let outer := negotiate true none none h2on outerOffers
+  let pin := resetOnNested true (recordedAlpn outer)
+  if eager then
+    let up := peerSelect prefs (serverOffers [] innerOffers h2on)
+    (outer, up, negotiate false pin (recordedAlpn up) h2on innerOffers)
+  else (outer, none, negotiate false pin none h2on innerOffers)
+
 /-! ### class instance and the regenerated table -/
 
 abbrev Cfg := Option Nat × Upstream Nat × Bool
